@@ -74,6 +74,13 @@ _ds("C17", "Lifetime scenarios per object type under every schedule within the b
     "the last item, queue-specific and data destructors exactly once and not before the last holder released, free() of the object observed (a leak is a stuck witness) and never before its last item's end, "
     "a target queue outlives the queue targeting it.", "DESIGN.md §4 C17")
 
+CLAIMED["C11"] = dict(engine="dsched+seqx", technique="stateless model checking of timer programs on virtual clocks (all schedules with <=k deviations incl. 'timer expires first') + explicit-state BFS of the real timer heap against a sorted-multiset model",
+    text="End-to-end: dispatch_after and timer-source programs run on the real library with the three clocks, timerfd and epoll owned by the scheduler; oracle inside handlers: never before the deadline / start time "
+         "in force (including after dispatch_source_set_timer from the handler or before activation), cumulative dispatch_source_get_data <= interval boundaries passed, each after-block exactly once, every armed timer fires "
+         "before the horizon (stuck witness otherwise; a wrong kernel clock shows as ~10^6 s off). Structural: the static double-heap code is driven through a guarded shim: BFS to a fixpoint over "
+         "insert/remove/update with 12 keys while <=4-5 timers are live, and all short operation suffixes from prefilled heaps of every size 0..40 (crossing every segment growth/shrink).",
+    design_ref="DESIGN.md §4 C11, §5 C11", note=SC + " " + SEQ)
+
 NOT_YET = {}
 
 def main():
